@@ -81,6 +81,24 @@ def api_witness(slice_, timeout):
         bad = [v for r in rs for v in (r.resolution or {}).get('values', []) if v.get('type') == 'daterange' and v.get('start') and v.get('end') and not v['start'] < v['end']]
         if bad:
             return {'state': 'counterexample', 'cex': {'w': kind}, 'detail': 'date range with start not before end: %r' % (bad,), 'queries': 1}
+    elif kind == 'F49':
+        from recognizers_date_time import recognize_datetime
+        rs = recognize_datetime('傍晚13点', 'zh-cn', reference=datetime(2016, 11, 7))
+        bad = [v for r in rs for v in (r.resolution or {}).get('values', []) if str(v.get('timex', ''))[1:3] > '24']
+        if bad:
+            return {'state': 'counterexample', 'cex': {'w': kind}, 'detail': 'time with a TIMEX hour beyond 24: %r' % (bad,), 'queries': 1}
+    elif kind == 'F50':
+        from recognizers_date_time import recognize_datetime
+        rs = recognize_datetime("I'll go back May twenty nine", 'en-us', reference=datetime(2001, 3, 1))
+        got = [v.get('value') for r in rs for v in (r.resolution or {}).get('values', [])]
+        if got != ['2000-05-29', '2001-05-29']:
+            return {'state': 'counterexample', 'cex': {'w': kind}, 'detail': "'May twenty nine' at 2001-03-01 -> %r, expected 2000-05-29 and 2001-05-29" % (got,), 'queries': 1}
+    elif kind == 'F51':
+        from recognizers_date_time import recognize_datetime
+        rs = recognize_datetime('rows equals to date from 2010-01-01 till current date', 'en-us', reference=datetime(2018, 4, 25))
+        bad = [v for r in rs for v in (r.resolution or {}).get('values', []) if v.get('type') == 'daterange' and v.get('end') and v['end'] not in str(v.get('timex'))]
+        if bad:
+            return {'state': 'counterexample', 'cex': {'w': kind}, 'detail': 'range end differs from the end of its TIMEX: %r' % (bad,), 'queries': 1}
     elif kind == 'F37-overlap':
         from recognizers_date_time import recognize_datetime
         sp = _spans(recognize_datetime('明天三天后', 'zh-cn', reference=datetime(2016, 11, 7)))
